@@ -122,8 +122,10 @@ func isEscapeCommand(x byte) bool {
 }
 
 func StrcaseStartsWith(str []byte, prefix []byte) (isValid bool) {
-	strLower := bytes.ToLower(str)
-	prefixLower := bytes.ToLower(prefix)
+	// byte-wise ASCII case folding (strncasecmp): the text is Big5, bytes.ToLower would decode it as UTF-8
+	// and change its length, so that the caller cuts len(prefix) bytes in the middle of a character.
+	strLower := types.CstrTolower(str)
+	prefixLower := types.CstrTolower(prefix)
 	return bytes.HasPrefix(strLower, prefixLower)
 }
 
